@@ -24,7 +24,7 @@ def collect(config, tier):
     r = c01.build(config, tier)
     cs += r[0]; obs += r[1]; extra.append(r[2])
     r = c02.build(config, tier)
-    cs += r[0]; obs += r[1]
+    cs += r[0]; obs += r[1]; extra.append(c02.extra(config))
     r = c03.build(config, tier)
     cs += r[0]; obs += r[1]; extra.append(r[2])
     r = c04.build(config, tier)
